@@ -32,6 +32,8 @@ SubCollPrograms == { Set(1, 1), Add(1, 2), Upsert(1, 3), IncUp(1, 1), Del(1) }
 \* the smallest setting in which a change can be both in a subscriber's snapshot and delivered to it
 AttackLossyPrograms == { IncUp(1, 1), Add(1, 2), Del(1) }
 AbsentStore == { [i \in {1} |-> Absent] }
+KindsUo == { [uo |-> TRUE, lossy |-> FALSE], [uo |-> FALSE, lossy |-> FALSE] }
+GcPrograms == { Set(1, 1), IncUp(1, 1), Upsert(1, 2) }
 KindLossySeed == { [uo |-> FALSE, lossy |-> TRUE] }
 Kinds == { [uo |-> FALSE, lossy |-> FALSE], [uo |-> TRUE, lossy |-> FALSE] }
 KindsLossy == { [uo |-> FALSE, lossy |-> TRUE], [uo |-> TRUE, lossy |-> TRUE], [uo |-> FALSE, lossy |-> FALSE] }
@@ -43,7 +45,7 @@ I1 == {1}  I2 == {1, 2}
 Bounded == \A i \in Ids : store[i].v <= MaxV
 
 \* Gen: at the end of a behaviour print the programs and the schedule that was taken
-Terminal == AllDone /\ \A s \in Subs : Drained(s)
+Terminal == AllDone /\ \A s \in Subs : Drained(s) \/ spc[s] = "cancelled"
 \* initial contents, recovered from the histories (first commit on an id shows what was there)
 Init0(i) == LET ks == { k \in 1..Len(commitLog) : commitLog[k].id = i } IN
             IF ks = {} THEN store[i].v ELSE commitLog[CHOOSE k \in ks : \A j \in ks : k <= j].pre
@@ -52,10 +54,11 @@ EmitSched == Terminal =>
   PrintT("CASE " \o ToJson([init  |-> [i \in 1..NI |-> Init0(i)],
                             progs |-> [w \in 1..NW |-> prog[w]],
                             kinds |-> [s \in 1..NS |-> kind[s]],
+                            cancelled |-> [s \in 1..NS |-> spc[s] = "cancelled"],
                             sched |-> sched,
                             \* what the specification expects of this schedule
                             expect |-> [final |-> [i \in 1..NI |-> store[i].v],
                                         errs  |-> [w \in 1..NW |-> loc[w].err],
                                         views |-> [s \in 1..NS |-> [i \in 1..NI |-> view[s][i]]],
-                                        converged |-> Converged, commitValid |-> CommitValid]]))
+                                        converged |-> Converged, commitValid |-> CommitValid, noMissed |-> NoCommitMissed]]))
 =============================================================================
